@@ -348,6 +348,8 @@ class HistogramDensityMethod(BatchDetector):
         """
 
         super().reset()
+        # the epoch starts here, also when the user sets a new reference
+        self._lambda = self.total_batches
 
         if self.detect_batch == 1:
             # The reference and test data will be (re-)concatenated by the later
